@@ -156,6 +156,9 @@ def conformance(path_or_file, model_dense=None, model_ids=None):
                 if 'data_type' not in ds.attrs:
                     probs.append('%s/group-metadata/%s lacks data_type'
                                  % (axis, cat))
+                elif not _is_text(ds.attrs['data_type']):
+                    probs.append('%s/group-metadata/%s data_type is not a '
+                                 'string' % (axis, cat))
         dense = {}
         for axis in ('observation', 'sample'):
             d, p = decode_axis_matrix(f, axis, shape)
